@@ -8,7 +8,7 @@ from sa import transport_rules as tr
 from sa.callgraph import CallGraph
 from sa.cfg import CFG
 from sa.locks import LockModel
-from sa.model import AnalysisError, ClassInfo, Model, walk_no_nested
+from sa.model import canon_text, AnalysisError, ClassInfo, Model, walk_no_nested
 from sa.report import Report
 
 TITLE = "DoIP: frames are demultiplexed correctly under any segmentation and interleaving"
@@ -132,7 +132,7 @@ def run(m: Model, r: Report, tier: str) -> None:
     # ---------------------------------------------------------------- R5
     ra = m.require_function(f"{DOIP}.DoIPConnection._read_routing_activation_response")
     tests = [n for n in walk_no_nested(ra.node) if isinstance(n, ast.If) and "RoutingActivationResponseCode" in ast.unparse(n.test)]
-    r.check(len(tests) == 1 and m.mtext(ra, tests[0].test).replace(" ", "") == "_L.RoutingActivationResponseCode!=RoutingActivationResponseCodes.Success"
+    r.check(len(tests) == 1 and m.eqm(ra, tests[0].test, "payload.RoutingActivationResponseCode != RoutingActivationResponseCodes.Success")
             and isinstance(tests[0].body[0], ast.Raise) and "DoIPRoutingActivationDeniedError" in ast.unparse(tests[0].body[0]),
             "R5", ra.qualname, "the connection must be refused for every response code other than Success", loc=ra.loc)
 
@@ -244,7 +244,7 @@ def run(m: Model, r: Report, tier: str) -> None:
     ok8 = len(hs) == 1 and hs[0].type is not None and ast.unparse(hs[0].type) == "DoIPNegativeAckError"
     if ok8:
         ifs = [s for s in hs[0].body if isinstance(s, ast.If)]
-        ok8 = len(ifs) == 1 and ast.unparse(ifs[0].test).replace(" ", "") == f"{hs[0].name}.nack_code!=DiagnosticMessageNegativeAckCodes.TargetUnreachable" \
+        ok8 = len(ifs) == 1 and ast.unparse(ifs[0].test) == canon_text(f"{hs[0].name}.nack_code != DiagnosticMessageNegativeAckCodes.TargetUnreachable") \
             and isinstance(ifs[0].body[0], ast.Raise)
     r.check(ok8, "R8", w.qualname, "write must re-raise every NACK except TargetUnreachable (and swallow nothing else)", loc=w.loc)
 
